@@ -327,6 +327,9 @@ class CollAlg:
                 else:
                     ptxt = f"{self.text(f)}(_)"
                 return ("filter", self.term(e.args[1]), (ptxt, ()))
+            if short_name == "islice" and len(e.args) == 2 and not e.keywords:
+                return ("slice", self.term(e.args[0]),
+                        ":" + self.text(e.args[1]))
             if name == "map" and len(e.args) == 2 and not e.keywords:
                 return ("map", self.term(e.args[1]),
                         f"{self.text(e.args[0])}(_)", ())
